@@ -93,3 +93,6 @@ func RefCert(parentHash, blockHash common.Hash, height uint64, cert *types.Block
 	}
 	return v
 }
+
+// EmptySet returns an empty address set.
+func EmptySet() mapset.Set { return mapset.NewSet() }
